@@ -14,6 +14,13 @@ def vh(name, engine, cmd, tq=600, tt=7200):
     return {"name": name, "engine": engine, "argv": [VH, cmd], "timeout_quick": tq, "timeout_thorough": tt}
 
 
+def e2e(name, engine, script, extra=(), tq=900, tt=7200, tiers=("quick", "thorough")):
+    return {"name": name, "engine": engine, "argv": [PY, "{ROOT}/rig/" + script] + list(extra), "needs_bins": True,
+            "timeout_quick": tq, "timeout_thorough": tt, "tiers": tiers}
+
+
+A_E2E = "end-to-end legs run the real binaries (debug build: overflow checks on) in private network+mount namespaces; panics are observed on stderr, liveness by probes"
+
 A_HIST = [
     "time passes by shifting stored timestamps (hook H2); every comparison in the lease store is relative to now",
     "client identity and pool membership are computed by the harness from the generated world, independently of erbium",
@@ -25,16 +32,22 @@ PROPERTIES = {
     "C02": {"level": "exploration", "legs": [vh("c02-address-sets-inproc", "c02", "c02")],
             "assumptions": ["the documented address set D is computed by model/policy.rs, written from erbium.conf(5)",
                             "pools larger than 64 addresses are judged by size and boundary membership, not drained"]},
-    "C03": {"level": "exploration", "legs": [vh("c03-reply-construction-inproc", "c03", "c03")],
-            "assumptions": ["reference DNS codec (refcodec/dns.rs) written from RFC 1035/3597/6891 is the trusted base"]},
-    "C04": {"level": "exploration", "legs": [vh("c04-size-inproc", "c04", "c04")],
-            "assumptions": ["reference DNS codec is the trusted base"]},
+    "C03": {"level": "exploration", "legs": [vh("c03-reply-construction-inproc", "c03", "c03"),
+                                             e2e("c03-relay-e2e", "c03-e2e", "e2e_relay.py", ["--prop", "C03"])],
+            "assumptions": ["reference DNS codec (refcodec/dns.rs) written from RFC 1035/3597/6891 is the trusted base", A_E2E,
+                            "a relayed REFUSED that is dropped by the REFUSED rate limiter (C16) is not counted as a lost reply"]},
+    "C04": {"level": "exploration", "legs": [vh("c04-size-inproc", "c04", "c04"),
+                                             e2e("c04-relay-e2e", "c04-e2e", "e2e_relay.py", ["--prop", "C04"])],
+            "assumptions": ["reference DNS codec is the trusted base", A_E2E]},
     "C05": {"level": "exploration", "legs": [vh("c05-decoders-inproc", "c05", "c05")],
             "assumptions": ["harness built with overflow-checks and debug-assertions on; panics observed through a panic hook; 120 s watchdog per call"]},
     "C06": {"level": "exploration", "legs": [vh("c06-cache-inproc", "c06", "c06")],
             "assumptions": ["the cache is driven through hook H3 (same key construction, lifetime, insert, lookup and expiry code as handle_query) under tokio's paused clock"]},
-    "C08": {"level": "exploration", "legs": [vh("c08-acl-inproc", "c08", "c08")],
-            "assumptions": ["independent first-match model in legs/c08.rs; IPv6 prefixes against plain IPv4 clients are left unconstrained"]},
+    "C07": {"level": "exploration", "legs": [e2e("c07-exactly-one-reply-e2e", "c07-e2e", "e2e_c07.py")],
+            "assumptions": [A_E2E, "bounded-progress restatement: SERVFAIL for a silent upstream must arrive within 100 s (UDP; worst case from the code's constants is 51 s) / 170 s (TCP, thorough only)",
+                            "pipelining several queries on one client TCP connection is not demanded by the property and not exercised"]},
+    "C08": {"level": "exploration", "legs": [vh("c08-acl-inproc", "c08", "c08"), e2e("c08-acl-e2e", "c08-e2e", "e2e_c08.py")],
+            "assumptions": [A_E2E, "independent first-match model in legs/c08.rs; IPv6 prefixes against plain IPv4 clients are left unconstrained"]},
     "C09": {"level": "exploration", "legs": [hist("C09")], "assumptions": A_HIST},
     "C10": {"level": "exploration", "legs": [hist("C10")], "assumptions": A_HIST},
     "C11": {"level": "exploration", "legs": [vh("c11-policy-model-inproc", "c11", "c11")],
@@ -44,14 +57,17 @@ PROPERTIES = {
     "C13": {"level": "exploration", "legs": [hist("C13")], "assumptions": A_HIST},
     "C14": {"level": "exploration", "legs": [vh("c14-roundtrip-inproc", "c14", "c14")],
             "assumptions": ["reference DNS codec with pointer validation is the trusted base"]},
-    "C16": {"level": "exploration", "legs": [vh("c16-bucket-cookie-inproc", "c16", "c16")],
-            "assumptions": ["burst B and rate R are read from the code's constants (hook H3)"]},
+    "C15": {"level": "exploration", "legs": [e2e("c15-routes-e2e", "c15-e2e", "e2e_c15.py")],
+            "assumptions": [A_E2E, "route choice is fused with forwarding in the code, so it is observed end to end only"]},
+    "C16": {"level": "exploration", "legs": [vh("c16-bucket-cookie-inproc", "c16", "c16"), e2e("c16-refused-rate-e2e", "c16-e2e", "e2e_c16.py")],
+            "assumptions": [A_E2E, "a source hashes to two buckets, so the per-source bound checked end to end is 2B + 2R(dt+1) plus one maximal charge of slack", "burst B and rate R are read from the code's constants (hook H3)"]},
     "C17": {"level": "exploration", "legs": [vh("c17-ra-inproc", "c17", "c17")],
             "assumptions": ["RA decoder written from RFC 4861/8106/8781/8910 is the trusted base; RDNSS/DNSSL lifetime when not configured is unconstrained"]},
     "C18": {"level": "exploration", "legs": [hist("C18")], "assumptions": A_HIST},
     "C19": {"level": "exploration", "legs": [vh("c19-config-inproc", "c19", "c19", 900, 7200)],
             "assumptions": ["pools beyond 2^20 addresses (IPv4 prefixes /1../11, wide ranges) are skipped and counted: memory exhaustion is not what the property names"]},
-    "C20": {"level": "exploration", "legs": [hist("C20")], "assumptions": A_HIST},
+    "C20": {"level": "exploration", "legs": [hist("C20"), e2e("c20-listing-gauges-e2e", "c20-e2e", "e2e_c20.py")],
+            "assumptions": A_HIST + [A_E2E]},
 }
 
 # Properties not claimed (yet): id -> reason.  Kept current by hand; see DESIGN.md section 5.
